@@ -344,6 +344,12 @@ class PortMachine(Machine):
                 raise Violation("C08", "C08.rejected-write-inconsistent",
                                 f"after a rejected {opname} the object reports {p.line!r} but "
                                 f"its views disagree: {v.msg}", {"opname": opname})
+            # consistent: the history goes on with this very object (whatever the refused write
+            # left behind stays reachable), the model follows what the object reports
+            slot["op"], slot["operands"] = now
+            slot["plat"], slot["proto"], slot["nr"] = p.platform, probe["proto"], p.port_nr
+            self.probes["kept_after_refused_write"] += 1
+            return
         slot["obj"] = self._build(slot)
 
     # ------------------------------------------------------------- apply
